@@ -18,7 +18,9 @@ package outbounds
 //     `*` stands for any run of characters, dots included (matchers_test.go: `*.example.com`
 //     matches www.example.com but not example.com; `example*.com` matches example2.com;
 //     `*大学*` spans two labels) / single IP / CIDR / `all` (or `*`);
-//   * IP and CIDR patterns look at the resolved IPv4 and IPv6 of the request, family-strict;
+//   * IP and CIDR patterns look at the resolved IPv4 and IPv6 of the request, family-strict,
+//     where an IPv4-mapped IPv6 address (::ffff:a.b.c.d, in a rule or in either slot of the
+//     request) denotes the IPv4 address a.b.c.d;
 //   * protocol tcp | udp | both; port any | single | inclusive range;
 //   * host names compare case-insensitively and ignoring trailing dots (also in patterns).
 // Documentation is silent on whether `*` may stand for the EMPTY string; the reference is
@@ -53,11 +55,15 @@ type vfC09Rule struct {
 	Pattern  string `json:"pattern,omitempty"` // canonical pattern of a name kind (lower case, no trailing dot)
 	IP       net.IP `json:"ip,omitempty"`      // ip: the address; cidr: the network address
 	Bits     int    `json:"bits,omitempty"`    // cidr prefix length
-	Proto    int    `json:"proto"`             // 0 both, 1 tcp, 2 udp
-	PortLo   int    `json:"port_lo"`           // 0 = any port
-	PortHi   int    `json:"port_hi"`
-	Hijack   net.IP `json:"hijack,omitempty"`
-	Text     string `json:"text"` // the line as rendered into the rule file
+	// MappedText: an IPv4 address/network written in IPv4-mapped IPv6 notation in the rule file
+	// (`::ffff:a.b.c.d`, prefix length + 96). IP and Bits stay in IPv4 terms: the notation denotes
+	// that IPv4 address (RFC 4291 2.5.5.2).
+	MappedText bool   `json:"mapped_text,omitempty"`
+	Proto      int    `json:"proto"`   // 0 both, 1 tcp, 2 udp
+	PortLo     int    `json:"port_lo"` // 0 = any port
+	PortHi     int    `json:"port_hi"`
+	Hijack     net.IP `json:"hijack,omitempty"`
+	Text       string `json:"text"` // the line as rendered into the rule file
 }
 
 type vfC09Query struct {
@@ -462,6 +468,7 @@ func vfC09RandAddr(rg *rand.Rand, u *vfC09Universe, r *vfC09Rule, kind string) {
 	case vfC09IP:
 		if rg.Intn(3) != 0 {
 			r.IP = vfC09Near(rg, u.Nets4[rg.Intn(len(u.Nets4))], 24+rg.Intn(7))
+			r.MappedText = rg.Intn(8) == 0
 		} else {
 			r.IP = vfC09Near(rg, u.Nets6[rg.Intn(len(u.Nets6))], 120+rg.Intn(7))
 		}
@@ -469,6 +476,7 @@ func vfC09RandAddr(rg *rand.Rand, u *vfC09Universe, r *vfC09Rule, kind string) {
 		if rg.Intn(3) != 0 {
 			r.Bits = []int{0, 8, 16, 20, 24, 25, 27, 30, 31, 32}[rg.Intn(10)]
 			r.IP = vfC09Mask(vfC09Near(rg, u.Nets4[rg.Intn(len(u.Nets4))], 20+rg.Intn(12)), r.Bits)
+			r.MappedText = rg.Intn(8) == 0
 		} else {
 			r.Bits = []int{0, 16, 32, 44, 48, 64, 96, 112, 120, 127, 128}[rg.Intn(11)]
 			r.IP = vfC09Mask(vfC09Near(rg, u.Nets6[rg.Intn(len(u.Nets6))], 100+rg.Intn(28)), r.Bits)
@@ -683,6 +691,18 @@ func vfC09IPText(rg *rand.Rand, ip net.IP) string {
 	return ip.String()
 }
 
+// vfC09MappedText writes an IPv4 address in IPv4-mapped IPv6 notation.
+func vfC09MappedText(rg *rand.Rand, ip net.IP) string {
+	hi, lo := uint64(ip[0])<<8|uint64(ip[1]), uint64(ip[2])<<8|uint64(ip[3])
+	switch rg.Intn(3) {
+	case 0:
+		return "::ffff:" + ip.String()
+	case 1:
+		return "::ffff:" + strconv.FormatUint(hi, 16) + ":" + strconv.FormatUint(lo, 16)
+	}
+	return "0:0:0:0:0:ffff:" + strconv.FormatUint(hi, 16) + ":" + strconv.FormatUint(lo, 16)
+}
+
 func vfC09Sp(rg *rand.Rand) string {
 	if rg.Intn(4) == 0 {
 		return strings.Repeat(" ", 1+rg.Intn(3))
@@ -704,13 +724,21 @@ func vfC09RenderRule(rg *rand.Rand, r *vfC09Rule) string {
 	case vfC09Suffix:
 		addr = "suffix:" + vfC09RandCase(rg, r.Pattern) + dot
 	case vfC09IP:
-		addr = vfC09IPText(rg, r.IP)
+		if r.MappedText && len(r.IP) == 4 {
+			addr = vfC09MappedText(rg, r.IP)
+		} else {
+			addr = vfC09IPText(rg, r.IP)
+		}
 	case vfC09CIDR:
 		base := r.IP
 		if rg.Intn(5) == 0 { // host bits set, as in `1.1.1.1/24` of the engine's own test
 			base = vfC09Near(rg, r.IP, r.Bits)
 		}
-		addr = vfC09IPText(rg, base) + "/" + strconv.Itoa(r.Bits)
+		if r.MappedText && len(r.IP) == 4 {
+			addr = vfC09MappedText(rg, base) + "/" + strconv.Itoa(r.Bits+96)
+		} else {
+			addr = vfC09IPText(rg, base) + "/" + strconv.Itoa(r.Bits)
+		}
 	case vfC09All:
 		addr = []string{"all", "*"}[rg.Intn(2)]
 	}
@@ -966,6 +994,15 @@ func vfC09IPForm(rg *rand.Rand, ip net.IP) net.IP { // IPv4 in 4-byte or 16-byte
 	return ip
 }
 
+func vfC09MappedOK(rules []vfC09Rule) bool {
+	for i := range rules {
+		if rules[i].Kind == vfC09CIDR && len(rules[i].IP) == 16 && rules[i].Bits == 0 {
+			return false
+		}
+	}
+	return true
+}
+
 // vfC09DeriveQueries builds `want` distinct queries for the rule list.
 func vfC09DeriveQueries(rg *rand.Rand, rules []vfC09Rule, u *vfC09Universe, want int) []vfC09Query {
 	names := vfC09DeriveNames(rg, rules, u)
@@ -1015,13 +1052,21 @@ func vfC09DeriveQueries(rg *rand.Rand, rules []vfC09Rule, u *vfC09Universe, want
 				hot = append(hot, h)
 				h.Name = names[rg.Intn(len(names))]
 				hot = append(hot, h)
+				if len(ip) == 4 && vfC09MappedOK(rules) {
+					hot = append(hot, vfC09Host{Name: h.Name, V6: net.IPv4(ip[0], ip[1], ip[2], ip[3])})
+				}
 			}
 		}
 	}
 	seen := map[string]bool{}
 	var out []vfC09Query
+	// An AAAA answer may be an IPv4-mapped address (::ffff:a.b.c.d): it denotes the IPv4 address and IPv4
+	// rules cover it in whichever slot it sits. Only `::/0` would make its IPv6 reading matter: no such
+	// queries when that rule is present.
+	mappedOK := vfC09MappedOK(rules)
 	for guard := 0; len(out) < want && guard < want*20; guard++ {
 		var h vfC09Host
+		literal := false
 		switch x := rg.Intn(100); {
 		case len(hot) > 0 && x < 25: // covered by a repeated address
 			h = hot[rg.Intn(len(hot))]
@@ -1043,6 +1088,7 @@ func vfC09DeriveQueries(rg *rand.Rand, rules []vfC09Rule, u *vfC09Universe, want
 				h.V6 = pick(ip6)
 			}
 		default: // an IP literal as host, resolved to itself
+			literal = true
 			if rg.Intn(3) != 0 {
 				h.V4 = pick(ip4)
 				h.Name = h.V4.String()
@@ -1055,6 +1101,13 @@ func vfC09DeriveQueries(rg *rand.Rand, rules []vfC09Rule, u *vfC09Universe, want
 			h = vfC09Host{Name: vfC09Domain(rg)}
 			if rg.Intn(2) == 0 {
 				h.V4 = vfC09RandV4(rg)
+			}
+		}
+		if mappedOK && !literal && rg.Intn(8) == 0 {
+			m := pick(ip4)
+			h.V6 = net.IPv4(m[0], m[1], m[2], m[3]) // 16-byte ::ffff:a.b.c.d in the IPv6 slot
+			if rg.Intn(2) == 0 {
+				h.V4 = nil
 			}
 		}
 		// rules whose address part covers this host: probe their protocol and port edges
